@@ -165,19 +165,33 @@ Proof.
   pose proof (convert_def_next s rid d). specialize (IH (convert_def s rid d) (rid + 1)). lia.
 Qed.
 
+Lemma refs_err_next : forall s defs done partial,
+  next_id s + N.of_nat (length defs) <= next_id (fst (refs_err s defs done partial)).
+Proof.
+  intros. unfold refs_err. cbn [fst].
+  pose proof (run_script_next partial (convert_defs (reserve s defs) (next_id s) (firstn done defs)) []).
+  pose proof (convert_defs_next (firstn done defs) (reserve s defs) (next_id s)).
+  unfold reserve in *. simp_space. lia.
+Qed.
+
+Lemma refs_ok_next : forall s defs boxes ret,
+  next_id s + N.of_nat (length defs) <= next_id (fst (refs_ok s defs boxes ret)).
+Proof.
+  intros. unfold refs_ok. cbn [fst]. rewrite finalize_range_next.
+  pose proof (fold_box_next boxes (convert_defs (reserve s defs) (next_id s) defs)).
+  pose proof (convert_defs_next defs (reserve s defs) (next_id s)).
+  unfold reserve in *. simp_space. lia.
+Qed.
+
 Lemma run_call_next : forall s c, next_id s <= next_id (fst (run_call s c)).
 Proof.
   intros s [scr|defs boxes ret|defs done partial]; cbn [run_call].
   - unfold add_type. destruct (run_script s [] scr) as [s' res] eqn:E. cbn [fst].
     rewrite finalize_range_next. pose proof (run_script_next scr s []) as H. rewrite E in H. exact H.
-  - cbn [fst]. rewrite finalize_range_next.
-    pose proof (fold_box_next boxes (convert_defs (reserve s defs) (next_id s) defs)).
-    pose proof (convert_defs_next defs (reserve s defs) (next_id s)).
-    unfold reserve in *. simp_space. lia.
-  - cbn [fst].
-    pose proof (run_script_next partial (convert_defs (reserve s defs) (next_id s) (firstn done defs)) []).
-    pose proof (convert_defs_next (firstn done defs) (reserve s defs) (next_id s)).
-    unfold reserve in *. simp_space. lia.
+  - destruct (batch_dup defs).
+    + pose proof (refs_err_next s defs (S n) []). lia.
+    + pose proof (refs_ok_next s defs boxes ret). lia.
+  - pose proof (refs_err_next s defs done partial). lia.
 Qed.
 
 Lemma next_id_monotone : forall h s, next_id s <= next_id (run_history s h).
@@ -186,14 +200,12 @@ Proof.
   pose proof (run_call_next s c). specialize (IH (fst (run_call s c))). lia.
 Qed.
 
-(* a batch allocates at least one id per definition, whatever it contains *)
+(* a batch allocates one id per definition, whatever it contains and whether or
+   not it is rejected *)
 Lemma add_refs_allocates : forall s defs boxes ret,
   next_id s + N.of_nat (length defs) <= next_id (fst (run_call s (AddRefs defs boxes ret))).
 Proof.
-  intros. cbn [run_call fst]. rewrite finalize_range_next.
-  pose proof (fold_box_next boxes (convert_defs (reserve s defs) (next_id s) defs)).
-  pose proof (convert_defs_next defs (reserve s defs) (next_id s)).
-  unfold reserve in *. simp_space. lia.
+  intros. cbn [run_call]. destruct (batch_dup defs); [apply refs_err_next|apply refs_ok_next].
 Qed.
 
 (* ------------------------------------------------------------------ *)
@@ -292,22 +304,29 @@ Fixpoint boxes_new (s : space) (h : list call) : Prop :=
   | c :: r => boxes_of_call_new s c /\ boxes_new (fst (run_call s c)) r
   end.
 
+Lemma refs_err_kept : forall s defs done partial, kept (next_id s) s (fst (refs_err s defs done partial)).
+Proof.
+  intros. unfold refs_err. cbn [fst].
+  pose proof (reserve_kept (next_id s) s defs (N.le_refl _)) as H1.
+  pose proof (convert_defs_kept (firstn done defs) (next_id s) (reserve s defs) (next_id s) (proj1 H1) (N.le_refl _)) as H2.
+  pose proof (run_script_kept partial (next_id s) _ [] (proj1 H2)) as H3.
+  eapply kept_trans; [exact H1|]. eapply kept_trans; [exact H2|]. exact H3.
+Qed.
+
 Lemma run_call_kept : forall s c, boxes_of_call_new s c -> kept (next_id s) s (fst (run_call s c)).
 Proof.
-  intros s [scr|defs boxes ret|defs done partial] Hc; cbn [run_call fst].
+  intros s [scr|defs boxes ret|defs done partial] Hc; cbn [run_call].
   - unfold add_type. destruct (run_script s [] scr) as [s' res] eqn:E. cbn [fst].
     pose proof (run_script_kept scr (next_id s) s [] (N.le_refl _)) as H. rewrite E in H. cbn [fst] in H.
     eapply kept_trans; [exact H|]. apply finalize_range_kept. apply H.
-  - cbn [boxes_of_call_new] in Hc.
+  - destruct (batch_dup defs); [apply refs_err_kept|]. unfold refs_ok. cbn [fst].
+    cbn [boxes_of_call_new] in Hc.
     pose proof (reserve_kept (next_id s) s defs (N.le_refl _)) as H1.
     pose proof (convert_defs_kept defs (next_id s) (reserve s defs) (next_id s) (proj1 H1) (N.le_refl _)) as H2.
     pose proof (fold_box_kept boxes (next_id s) _ (proj1 H2) Hc) as H3.
     eapply kept_trans; [exact H1|]. eapply kept_trans; [exact H2|]. eapply kept_trans; [exact H3|].
     apply finalize_range_kept. apply H3.
-  - pose proof (reserve_kept (next_id s) s defs (N.le_refl _)) as H1.
-    pose proof (convert_defs_kept (firstn done defs) (next_id s) (reserve s defs) (next_id s) (proj1 H1) (N.le_refl _)) as H2.
-    pose proof (run_script_kept partial (next_id s) _ [] (proj1 H2)) as H3.
-    eapply kept_trans; [exact H1|]. eapply kept_trans; [exact H2|]. exact H3.
+  - apply refs_err_kept.
 Qed.
 
 Lemma kept_weaken : forall b b' s s', b <= b' -> kept b' s s' -> kept b s s'.
@@ -420,7 +439,11 @@ Fixpoint fresh_defs (s : space) (rid : id) (defs : list defn) : Prop :=
 Definition fresh_call (s : space) (c : call) : Prop :=
   match c with
   | AddType _ => True
-  | AddRefs defs _ _ => fresh_defs (reserve s defs) (next_id s) defs
+  | AddRefs defs _ _ =>
+      match batch_dup defs with
+      | Some i => fresh_defs (reserve s defs) (next_id s) (firstn (S i) defs)   (* rejected batch: never holds, see below *)
+      | None => fresh_defs (reserve s defs) (next_id s) defs
+      end
   | AddRefsErr defs done _ => fresh_defs (reserve s defs) (next_id s) (firstn done defs)
   end.
 Fixpoint fresh_history (s : space) (h : list call) : Prop :=
@@ -453,13 +476,21 @@ Qed.
 Lemma reserve_NInv : forall s defs, NInv s -> NInv (reserve s defs).
 Proof. intros s defs [HR HK]. split; [exact HR|exact HK]. Qed.
 
+Lemma refs_err_NInv : forall s defs done partial, NInv s ->
+  fresh_defs (reserve s defs) (next_id s) (firstn done defs) -> NInv (fst (refs_err s defs done partial)).
+Proof.
+  intros s defs done partial H Hf. unfold refs_err. cbn [fst].
+  apply run_script_NInv, convert_defs_NInv; [apply reserve_NInv; exact H|exact Hf].
+Qed.
+
 Lemma run_call_NInv : forall s c, NInv s -> fresh_call s c -> NInv (fst (run_call s c)).
 Proof.
-  intros s [scr|defs boxes ret|defs done partial] H Hf; cbn [run_call fst].
+  intros s [scr|defs boxes ret|defs done partial] H Hf; cbn [run_call fresh_call] in *.
   - unfold add_type. destruct (run_script s [] scr) as [s' res] eqn:E. cbn [fst].
     apply finalize_range_NInv. pose proof (run_script_NInv scr s [] H) as H'. rewrite E in H'. exact H'.
-  - apply finalize_range_NInv, fold_box_NInv, convert_defs_NInv; [apply reserve_NInv; exact H|exact Hf].
-  - apply run_script_NInv, convert_defs_NInv; [apply reserve_NInv; exact H|exact Hf].
+  - destruct (batch_dup defs); [apply refs_err_NInv; assumption|]. unfold refs_ok. cbn [fst].
+    apply finalize_range_NInv, fold_box_NInv, convert_defs_NInv; [apply reserve_NInv; exact H|exact Hf].
+  - apply refs_err_NInv; assumption.
 Qed.
 
 Lemma run_history_NInv : forall h s, NInv s -> fresh_history s h -> NInv (run_history s h).
@@ -875,7 +906,7 @@ Qed.
 Definition call_ok (s : space) (c : call) : Prop :=
   match c with
   | AddType scr => script_ok s [] scr
-  | AddRefs defs _ _ => defs_ok (reserve s defs) (next_id s) defs
+  | AddRefs defs _ _ => batch_dup defs = None /\ defs_ok (reserve s defs) (next_id s) defs
   | AddRefsErr _ _ _ => False      (* successful calls only *)
   end.
 Fixpoint history_ok (s : space) (h : list call) : Prop :=
@@ -886,11 +917,12 @@ Fixpoint history_ok (s : space) (h : list call) : Prop :=
 
 Lemma run_call_Bnd : forall s c, Bnd s -> Dom s -> call_ok s c -> Bnd (fst (run_call s c)) /\ Dom (fst (run_call s c)).
 Proof.
-  intros s [scr|defs boxes ret|defs done partial] HB HD Hok; cbn [run_call fst call_ok] in *; [| |contradiction].
+  intros s [scr|defs boxes ret|defs done partial] HB HD Hok; cbn [run_call call_ok] in *; [| |contradiction].
   - unfold add_type.
     pose proof (run_script_Bnd scr s [] 0 0 HB Hok (N.le_0_l _) HD) as [HB' HD'].
     destruct (run_script s [] scr) as [s' res]. cbn [fst] in *. apply finalize_range_Bnd; assumption.
-  - destruct (reserve_Bnd s defs HB HD) as [HB1 HD1]. destruct HB as [H1 _].
+  - destruct Hok as [Hnd Hok]. rewrite Hnd. unfold refs_ok. cbn [fst].
+    destruct (reserve_Bnd s defs HB HD) as [HB1 HD1]. destruct HB as [H1 _].
     destruct (convert_defs_Bnd defs (reserve s defs) (next_id s) (next_id s + N.of_nat (length defs)) HB1 H1 eq_refl
                 ltac:(unfold reserve; simp_space; lia) HD1 Hok) as [HB2 HD2].
     destruct (fold_box_Bnd boxes _ HB2 HD2) as [HB3 HD3]. apply finalize_range_Bnd; assumption.
@@ -977,12 +1009,55 @@ Proof.
   change (def_names _) with [1; 1]. apply not_nodup_2.
 Qed.
 
-(* two keys of one batch, one type name (foo / Foo): corpus 05 *)
-Lemma names_unique_same_batch_refuted :
-  exists d1 d2, d_key d1 <> d_key d2 /\ ~ NoDup (def_names (run_history empty [AddRefs [d1; d2] [] None])).
+(* two keys of one batch, one type name (foo / Foo), corpus 05: since c22ef06 the
+   call is REJECTED ... *)
+Definition ins_names' (i : ins) : list name := match i with InsNamed n _ => [n] | InsRaw _ => [] end.
+
+Lemma batch_dup_from_none : forall defs seen k, batch_dup_from seen defs k = None ->
+  NoDup (flat_map (fun d => ins_names' (d_ins d)) defs)
+  /\ forall n, In n (flat_map (fun d => ins_names' (d_ins d)) defs) -> ~ In n seen.
+Proof.
+  induction defs as [|d r IH]; intros seen k H; cbn [flat_map batch_dup_from] in *.
+  - split; [constructor|intros n []].
+  - destruct (d_ins d) as [n b|b]; cbn [ins_name ins_names' app] in *.
+    + destruct (existsb (N.eqb n) seen) eqn:E; [discriminate|].
+      destruct (IH _ _ H) as [Hnd Hns]. split.
+      * constructor; [|exact Hnd]. intro Hin. apply (Hns n Hin). left. reflexivity.
+      * intros m [Hm|Hm].
+        -- subst m. intro Hin. assert (Hex : existsb (N.eqb n) seen = true).
+           { apply existsb_exists. exists n. split; [exact Hin|apply N.eqb_refl]. }
+           rewrite Hex in E. discriminate.
+        -- intro Hin. apply (Hns m Hm). right. exact Hin.
+    + apply (IH _ _ H).
+Qed.
+
+(* an accepted batch inserts its definitions under pairwise distinct type names *)
+Lemma accepted_batch_names_distinct : forall defs, batch_dup defs = None ->
+  NoDup (flat_map (fun d => ins_names' (d_ins d)) defs).
+Proof. intros defs H. apply (batch_dup_from_none defs [] O H). Qed.
+
+(* ... whatever else the batch contains *)
+Lemma same_batch_rejected : forall pre d1 mid d2 post n b1 b2 boxes ret,
+  d_ins d1 = InsNamed n b1 -> d_ins d2 = InsNamed n b2 ->
+  call_err (AddRefs (pre ++ d1 :: mid ++ d2 :: post) boxes ret) = true.
+Proof.
+  intros pre d1 mid d2 post n b1 b2 boxes ret H1 H2. cbn [call_err].
+  destruct (batch_dup (pre ++ d1 :: mid ++ d2 :: post)) eqn:E; [reflexivity|exfalso].
+  apply accepted_batch_names_distinct in E.
+  rewrite flat_map_app in E. cbn [flat_map] in E. rewrite flat_map_app in E. cbn [flat_map] in E.
+  rewrite H1, H2 in E. cbn [ins_names' app] in E.
+  apply NoDup_remove_2 in E. apply E. rewrite !in_app_iff. right. right. left. reflexivity.
+Qed.
+
+(* ... but the rejected call leaves BOTH entries behind (lib.rs:601 TODO: no
+   roll-back), so the state after the Err still renders the name twice: corpus 05
+   (class C16-4) *)
+Lemma names_unique_after_rejected_batch_refuted :
+  exists d1 d2, d_key d1 <> d_key d2 /\ call_err (AddRefs [d1; d2] [] None) = true
+    /\ ~ NoDup (def_names (run_history empty [AddRefs [d1; d2] [] None])).
 Proof.
   exists (mkDef 1 [] (InsNamed 1 (mkT 1 []))), (mkDef 2 [] (InsNamed 1 (mkT 2 []))).
-  split; [cbn; discriminate|]. change (def_names _) with [1; 1]. apply not_nodup_2.
+  split; [cbn; discriminate|]. split; [reflexivity|]. change (def_names _) with [1; 1]. apply not_nodup_2.
 Qed.
 
 (* ONE definition whose conversion assigns a sub-type of the same name first: corpus 06 *)
@@ -1017,7 +1092,11 @@ Definition def_mentions (d : defn) : list name := scr_names (d_script d) ++ ins_
 Definition call_mentions (c : call) : list name :=
   match c with
   | AddType scr => scr_names scr
-  | AddRefs defs _ _ => flat_map def_mentions defs
+  | AddRefs defs _ _ =>
+      match batch_dup defs with
+      | Some i => flat_map def_mentions (firstn (S i) defs)
+      | None => flat_map def_mentions defs
+      end
   | AddRefsErr defs done partial => flat_map def_mentions (firstn done defs) ++ scr_names partial
   end.
 Definition mentions (h : list call) : list name := flat_map call_mentions h.
@@ -1085,13 +1164,24 @@ Proof.
   rewrite IH, convert_def_reg, in_app_iff. tauto.
 Qed.
 
+Lemma refs_err_reg : forall s defs done partial n,
+  registered (fst (refs_err s defs done partial)) n <->
+  registered s n \/ In n (flat_map def_mentions (firstn done defs) ++ scr_names partial).
+Proof.
+  intros. unfold refs_err. cbn [fst].
+  rewrite run_script_reg, convert_defs_reg, in_app_iff. unfold registered, reserve. simp_space. tauto.
+Qed.
+
 Lemma run_call_reg : forall s c n, registered (fst (run_call s c)) n <-> registered s n \/ In n (call_mentions c).
 Proof.
-  intros s [scr|defs boxes ret|defs done partial] n; cbn [run_call fst call_mentions].
+  intros s [scr|defs boxes ret|defs done partial] n; cbn [run_call call_mentions].
   - unfold add_type. pose proof (run_script_reg scr s [] n) as H.
     destruct (run_script s [] scr) as [s' res]. cbn [fst] in *. rewrite finalize_range_reg. exact H.
-  - rewrite finalize_range_reg, fold_box_reg, convert_defs_reg. unfold registered, reserve. simp_space. tauto.
-  - rewrite run_script_reg, convert_defs_reg, in_app_iff. unfold registered, reserve. simp_space. tauto.
+  - destruct (batch_dup defs).
+    + rewrite refs_err_reg. cbn [scr_names flat_map]. rewrite app_nil_r. tauto.
+    + unfold refs_ok. cbn [fst].
+      rewrite finalize_range_reg, fold_box_reg, convert_defs_reg. unfold registered, reserve. simp_space. tauto.
+  - apply refs_err_reg.
 Qed.
 
 Lemma run_history_reg : forall h s n, registered (run_history s h) n <-> registered s n \/ In n (mentions h).
